@@ -328,7 +328,7 @@ func RunWorker(id, tier string, shard, nshard int, out string) int {
 		fmt.Fprintln(os.Stderr, "unknown check", id)
 		return 2
 	}
-	debug.SetGCPercent(400)
+	debug.SetGCPercent(800)
 	c := &Ctx{Check: ch, Tier: tier, Shard: shard, NShard: nshard, Res: newResult()}
 	progressFile := out + ".progress"
 	stop := make(chan struct{})
@@ -535,7 +535,7 @@ func RunCheck(id, tier string) int {
 				cmd := exec.Command(self, "worker", id, "--tier", tier, "--shard", strconv.Itoa(s), "--nshard", strconv.Itoa(nshard), "--out", out)
 				cmd.Stdout = lf
 				cmd.Stderr = lf
-				cmd.Env = append(os.Environ(), "GOMAXPROCS=2")
+				cmd.Env = append(os.Environ(), "GOMAXPROCS=1")
 				err := cmd.Run()
 				lf.Close()
 				results[s] = wres{s, err, out, logp}
